@@ -19,6 +19,7 @@ type nativeBuild struct {
 	bin     string
 	overlay string
 	race    bool
+	steered bool
 }
 
 func goEnv() []string {
@@ -31,14 +32,29 @@ func writeOverlay(path string) error {
 	return os.WriteFile(path, b, 0o644)
 }
 
-func buildNative(race bool) (*nativeBuild, error) {
+func buildNative(race bool) (*nativeBuild, error) { return buildNativeMode(race, false) }
+
+// buildNativeSteered: the build in which a recorded schedule can be imposed (see steer.go).
+func buildNativeSteered(race bool) (*nativeBuild, error) { return buildNativeMode(race, true) }
+
+func buildNativeMode(race, steered bool) (*nativeBuild, error) {
 	dir, err := os.MkdirTemp("", "gosx-native-")
 	if err != nil {
 		return nil, err
 	}
-	nb := &nativeBuild{dir: dir, bin: filepath.Join(dir, "zz.test"), overlay: filepath.Join(dir, "overlay.json"), race: race}
+	nb := &nativeBuild{dir: dir, bin: filepath.Join(dir, "zz.test"), overlay: filepath.Join(dir, "overlay.json"), race: race, steered: steered}
 	cleanups = append(cleanups, nb.cleanup)
-	if err := writeOverlay(nb.overlay); err != nil {
+	if steered {
+		ov, err := steeredOverlay(dir)
+		if err != nil {
+			os.RemoveAll(dir)
+			return nil, err
+		}
+		b, _ := json.MarshalIndent(struct{ Replace map[string]string }{ov}, "", " ")
+		if err := os.WriteFile(nb.overlay, b, 0o644); err != nil {
+			return nil, err
+		}
+	} else if err := writeOverlay(nb.overlay); err != nil {
 		return nil, err
 	}
 	args := []string{"test", "-c", "-vet=off", "-tags", "verif", modfileFlag(), "-overlay", nb.overlay, "-o", nb.bin}
@@ -100,6 +116,9 @@ func (nb *nativeBuild) run(m *interp.ReplayModel, saveDir string) *nativeResult 
 	}
 	b, _ := json.MarshalIndent(m, "", " ")
 	os.WriteFile(mp, b, 0o644)
+	if nb.steered {
+		return runNativeBinEnv(nb.bin, mp, 60*time.Second, "VX_STEER=1")
+	}
 	return runNativeBin(nb.bin, mp, 60*time.Second)
 }
 
@@ -212,6 +231,21 @@ func cmdReplay(args []string) {
 	for _, e := range m.Expect {
 		if res.confirms(e) {
 			ok = true
+		}
+	}
+	if !ok && len(m.Sync) > 0 {
+		// schedule-dependent: impose the recorded schedule in the steered build
+		if sb, err := buildNativeSteered(race); err == nil {
+			defer sb.cleanup()
+			res = runNativeBinEnv(sb.bin, mp, 120*time.Second, "VX_STEER=1")
+			fmt.Print(res.Output)
+			for _, e := range m.Expect {
+				if res.confirms(e) {
+					ok = true
+				}
+			}
+		} else {
+			fmt.Printf("steered build failed: %v\n", err)
 		}
 	}
 	if ok {
